@@ -236,8 +236,11 @@ GenState(i, sd, k) ==
        over == TLCEval(IF k % 5 = 4 THEN <<>> ELSE ovp \o ovs \o ovm)
        \* cmpxchg: accumulator equal to the destination in a third of the states
        s1 == [s0 EXCEPT !.over = over]
-       reg2 == IF i.mn = "cmpxchg" /\ k % 3 = 0 THEN RegWrite(reg, RC(i.w), 0, Rd(i.ops[1], i.w, s1)) ELSE reg
-   IN TLCEval([s1 EXCEPT !.reg = reg2])
+       eq == i.mn = "cmpxchg" /\ k % 3 = 0
+       acc == RegRead(reg, RC(i.w), 0)
+       reg2 == IF eq /\ i.ops[1].k = "reg" THEN RegWrite(reg, i.ops[1].c, i.ops[1].n, acc) ELSE reg
+       over2 == IF eq /\ i.ops[1].k = "mem" THEN over \o Bytes(EA(i.ops[1], s1), acc, i.w \div 8) ELSE over
+   IN TLCEval([s1 EXCEPT !.reg = reg2, !.over = over2])
 \* the address an instance is placed at (the lifted semantics takes the next eip as a constant)
 EipOf(n) == <<L(0,16,0,0), L(0,16,64,0), L(240,255,255,127), L(0,240,255,255)>>[(n % 4) + 1]
 =============================================================================
